@@ -569,6 +569,98 @@ def real_rules_on(view, md_rule_codes):
 
 
 # ----------------------------------------------------------------------------------------------
+_race_n = [0]
+
+
+def concurrent_registration_oracle(ck):
+    """Two threads generate a class of the same component category; thread A is suspended at every line of the component
+    metaclass' registration (sys.settrace on that one code object) while thread B registers its class completely (or
+    blocks on the registry lock until A goes on).  Afterwards both classes must be in the component registry and pass
+    validate_component without an SVA107 (registry coherence) error."""
+    import sys
+    import threading
+    from semantiva.core import semantiva_component as sc
+    from semantiva.examples.test_utils import FloatOperation, FloatDataType
+    code = sc._SemantivaComponentMeta.__init__.__code__
+
+    def make(name):
+        return type(name, (FloatOperation,), {"__doc__": "Generated for the registration race.", "__module__": __name__,
+                                              "_process_logic": lambda self, data: FloatDataType(data.data)})
+
+    def in_registry(cls):
+        return any(cls in v for v in sc.get_component_registry().values())
+
+    # number of line events of one registration
+    count = [0]
+
+    def counting(frame, event, arg):
+        if frame.f_code is code:
+            def local(fr, ev, a):
+                if ev == "line":
+                    count[0] += 1
+                return local
+            return local
+        return None
+    _race_n[0] += 1
+    sys.settrace(counting)
+    try:
+        make("VerifRaceProbe%d" % _race_n[0])
+    finally:
+        sys.settrace(None)
+    points, lost = count[0], []
+    for k in range(1, points + 1):
+        paused, resume = threading.Event(), threading.Event()
+        made = {}
+
+        def thread_a():
+            seen = [0]
+
+            def tracer(frame, event, arg):
+                if frame.f_code is code:
+                    def local(fr, ev, a):
+                        if ev == "line":
+                            seen[0] += 1
+                            if seen[0] == k:
+                                paused.set()
+                                resume.wait(3.0)
+                        return local
+                    return local
+                return None
+            sys.settrace(tracer)
+            try:
+                made["a"] = make("VerifRaceA%d_%d" % (_race_n[0], k))
+            finally:
+                sys.settrace(None)
+
+        def thread_b():
+            made["b"] = make("VerifRaceB%d_%d" % (_race_n[0], k))
+        ta, tb = threading.Thread(target=thread_a), threading.Thread(target=thread_b)
+        ta.start()
+        paused.wait(3.0)
+        tb.start()
+        tb.join(0.3)           # B finishes, or waits for the lock A holds
+        resume.set()
+        ta.join(5.0)
+        tb.join(5.0)
+        for who in ("a", "b"):
+            cls = made.get(who)
+            if cls is None:
+                ck.corr_problem("registration race: thread %s did not finish at stop point %d" % (who, k), "")
+            elif not in_registry(cls):
+                lost.append((k, who, cls.__name__))
+    if lost:
+        k, who, name = lost[0]
+        from semantiva.contracts.expectations import validate_component
+        cls_diags = []
+        ck.fail_input("C16:registry:concurrently-generated-class-not-registered",
+                      "two threads generate a FloatOperation subclass each; with thread A suspended at line-stop %d of "
+                      "_SemantivaComponentMeta.__init__ while thread B registers, class %s (thread %s) is missing from the "
+                      "component registry afterwards (SVA107 registry coherence); %d of %d stop points lose a class"
+                      % (k, name, who, len({x[0] for x in lost}), points),
+                      {"kind": "registration-race", "stop_point": k, "lost": lost[:6], "stop_points": points})
+    return {"stop_points": points, "lost": len(lost)}
+
+
 def run(ck):
     rng = random.Random(ck.seed * 15485863 + 16)
     thorough = ck.tier == "thorough"
@@ -686,6 +778,9 @@ def run(ck):
                                          "rules_reflection_only": sorted(c for c, s, p in rules if p == "PReflect")}
     ck.cov["traces_validated_against_impl"] += mut_ok
     ck.log("rule models: %d/%d mutated metadata dicts agree (%d of them carry error diagnostics)" % (mut_ok, len(muts), failing_muts))
+
+    # ---------- direct oracle: classes generated concurrently all reach the registry (SVA107 registry coherence)
+    ck.notes["concurrent_registration"] = concurrent_registration_oracle(ck)
 
     # ---------- direct oracles
     first = {}
